@@ -357,7 +357,6 @@ package sqlx
 //@ spec 	d, ok := c.(*schema.DropForeignKey)
 //@ spec 	return ok && SameTable(d.F.RefTable, t)
 //@ spec }
-//@ rec gvcDepChangeOK
 //@ spec func gvcDepChangeOK(c schema.Change) bool {
 //@ spec 	return (!GvcIs[*schema.AddTable](c) || (c.(*schema.AddTable) != nil && c.(*schema.AddTable).T != nil)) &&
 //@ spec 		(!GvcIs[*schema.DropTable](c) || (c.(*schema.DropTable) != nil && c.(*schema.DropTable).T != nil)) &&
